@@ -267,9 +267,9 @@ Definition cg_use_usable (h : helper) (usable : list cgroup) (chosen : Z) (st : 
         else st in
       (* a.result/a.from/a.cnt as assigned by the same-size branch (if it ran to completion) *)
       let h1 := if live then commit h (st1.1.1.1, st1.1.1.2, 0, st1.2) else h in
-      if live && negb (st1.1.2 =? 0) then h else
+      if live && negb (st1.1.2 =? 0) then bump st1.2 h else
       let '(grp_cnt, cpu_cnt) := scan_totals sizes st1.1.2 0 0 in
-      if cpu_cnt <? st1.1.2 then h1 else
+      if cpu_cnt <? st1.1.2 then bump st1.2 h1 else
       let st2 := cg_take_first h (firstn grp_cnt usable) st1 in
       let st3 :=
         if 0 <? st2.1.2 then
@@ -280,7 +280,7 @@ Definition cg_use_usable (h : helper) (usable : list cgroup) (chosen : Z) (st : 
           | None => st2
           end
         else st2 in
-      if negb (st3.1.2 =? 0) then h1
+      if negb (st3.1.2 =? 0) then bump st3.2 h1   (* nothing committed; the level still records the sorts that ran *)
       else commit h (st3.1.1.1, st3.1.1.2, 0, st3.2)
   end.
 
